@@ -68,9 +68,11 @@ struct cmb_resourcepool *cmb_resourcepool_create(void)
 
 /*
  * holder_queue_check - Test if heap_tag *a should go before *b. If so, return
- * true. Ranking lower priority (dsortkey) before higher, then LIFO based on handle
- * value. Used to identify the most likely victim for resource preemption, hence
- * opposite order of the waiting room.
+ * true. Ranking lower priority (isortkey) before higher, then LIFO: the holder
+ * that joined most recently (largest dsortkey, a sequence number) goes first.
+ * Used to identify the most likely victim for resource preemption, hence
+ * opposite order of the waiting room. Not by memory address, which depends on
+ * whatever the allocator did earlier in the thread.
  */
 static bool holder_queue_check(const struct cmi_heap_tag *a,
                                const struct cmi_heap_tag *b)
@@ -83,7 +85,7 @@ static bool holder_queue_check(const struct cmi_heap_tag *a,
         ret = true;
     }
     else if (a->isortkey == b->isortkey) {
-        if (a->key > b->key) {
+        if (a->dsortkey > b->dsortkey) {
             ret = true;
         }
     }
@@ -136,7 +138,7 @@ static void reprioritize_holder(struct cmi_holdable *rhp,
     const struct cmb_resourcepool *sp = (struct cmb_resourcepool *)rhp;
     const struct cmi_hashheap *hp = &(sp->holders);
     const uint64_t key = (uint64_t)pp;
-    cmi_hashheap_reprioritize(hp, key, 0.0, pri);
+    cmi_hashheap_reprioritize(hp, key, cmi_hashheap_dkey(hp, key), pri);
 }
 
 /*
@@ -369,10 +371,11 @@ static void update_record(struct cmb_resourcepool *rpp,
         cmi_slist_push(&(pp->resources), &(hp->listhead));
 
         /* Not held already, create a new resource pool holder entry for the process */
+        const double joined = (double)(hhp->item_counter + 1u);
         const uint64_t new_key = cmi_hashheap_enqueue(hhp,
                                                      (void *)pp, (void *)amount,
                                                      NULL, NULL,
-                                                     key, 0.0, pp->priority);
+                                                     key, joined, pp->priority);
         cmb_assert_debug(new_key == key);
     }
 }
